@@ -83,7 +83,7 @@ impl TombstoneLog {
                     let tombstone = Tombstone::read(buf);
                     if tombstone.sequence > seq {
                         seq = tombstone.sequence;
-                        addr = slot * Tombstone::SERIALIZED_LEN;
+                        addr = offset + slot * Tombstone::SERIALIZED_LEN;
                     }
                     if tombstone.sequence == 0 {
                         continue;
@@ -106,14 +106,7 @@ impl TombstoneLog {
 
         tombstones.extend(recovered.into_iter().map(|(tombstone, _)| tombstone));
 
-        let latest_tombstone_page = latest_tombstone_offset / PAGE;
-        let latest_tombstone_slot = if latest_tombstone_page == 0 {
-            latest_tombstone_offset / Tombstone::SERIALIZED_LEN
-        } else {
-            let pages_before_latest_tombstone = latest_tombstone_page - 1;
-            Self::SLOTS_PER_PAGE * pages_before_latest_tombstone
-                + (latest_tombstone_offset - pages_before_latest_tombstone * PAGE) / Tombstone::SERIALIZED_LEN
-        };
+        let latest_tombstone_slot = latest_tombstone_offset / Tombstone::SERIALIZED_LEN;
 
         let pages = partitions.iter().map(|p| p.size()).sum::<usize>() / PAGE;
         let slot = latest_tombstone_slot + 1;
